@@ -47,6 +47,14 @@ PROPS = {}
 def prop(pid, **kw):
     PROPS[pid] = kw
 
+# generator features shared by every harness built on prog/exec/gens (appended to the rule of each such property)
+GEN_NOTE = (". Shared generator features: byte strings are uniform, pseudo-random from a seed, 1-3 set bits, one repeated byte, counting, "
+            "high-bit-set, word-structured (each aligned 2/4/8-byte word all-zero, all-one, a repeat of the previous word or random) or extreme "
+            "(00..00 / ff..ff with at most one byte disturbed); values of one argument class recur in another (tweak == key prefix, counter == tweak); "
+            "block arrays are unrelated, constant, big-endian ramps, a base with a few entries replaced, or two values in runs; the caller's object sits "
+            "at any multiple of 8 from a 64-byte boundary (ao) and, for the functions that take it as pointer-to-const, 12 % of the time in pages that "
+            "are read-only during the call (ro); rare storms of 255..65537 consecutive setter calls (rep).")
+
 
 # ----------------------------------------------------------------------------- C05
 prop("C05",
@@ -65,7 +73,9 @@ prop("C05",
            "used; distinct = distinct serialised programs among those. A second harness (unit c05-big) issues single calls of "
            ">= 65281 blocks (512 KiB and more; in the thorough tier also more than 4 GiB) followed by a continuation call, on every "
            "back end, and checks sampled blocks (first / last, around every power of two in blocks and bytes, around the call "
-           "boundary, 1500 pseudo-random ones) against E(c + i) computed with the single-block functions"),
+           "boundary, 1500 pseudo-random ones) against E(c + i) computed with the single-block functions. 15 % of the programs weave one to three "
+           "bystander objects of the same kind (own init / keying / data / cleanup in any order, ops marked by=1) around the stream under test; 2 % "
+           "are dribbles of 256-600 calls of 0-5 bytes on one stream" + GEN_NOTE),
      assumptions=MODEL_ASSUME + BUILD_ASSUME,
      technique="property-based testing (rapidcheck): generated CTR call programs vs. specification model, shrinking to a replay file",
      text=("Generated-input search: every generated CTR program must reproduce in xor E(c+i) of an independent "
@@ -83,7 +93,7 @@ prop("C01",
      rule=("(variant, key of a primary size, 1-4 blocks, direction, buffer placement incl. overlap) through "
            "skinnyN_set_key + skinnyN_ecb_encrypt/decrypt, compared with the table-driven specification model; keys and "
            "blocks from a mixture of uniform / sparse / constant / counting / high-bit byte strings; non-trivial = key is "
-           "neither all-zero nor one of the six published vectors; distinct = distinct serialised cases"),
+           "neither all-zero nor one of the six published vectors; distinct = distinct serialised cases" + GEN_NOTE),
      assumptions=MODEL_ASSUME + BUILD_ASSUME + ["besides the shipped build, a clang -O3 build and two builds of the scalar variants (32-bit words; 32-bit words + byte-wise access + byte-order-neutral code, SIMD off) are run against the model; the full configuration matrix is C12's job"],
      technique="property-based testing (rapidcheck): random keys/blocks vs. independent specification model",
      text=("Generated (key, block, variant, direction) cases must equal an independent table-driven SKINNY model that is "
@@ -98,7 +108,7 @@ prop("C02",
      rule=("(key, tweak, blocks, rounds 5..8, mode, tweak path in {never set, set_tweak, set_tweak(NULL) after a non-zero "
            "tweak, per-call}) through mantis_set_key / mantis_set_tweak / mantis_ecb_crypt / mantis_ecb_crypt_tweaked vs. "
            "the MANTIS-r specification model, plus the direct law crypt(stored t) == crypt_tweaked(t); non-trivial = some "
-           "tweak is non-zero and the key is not the published one"),
+           "tweak is non-zero and the key is not the published one" + GEN_NOTE),
      assumptions=MODEL_ASSUME + BUILD_ASSUME,
      technique="property-based testing (rapidcheck): random key/tweak/block/rounds/mode vs. independent MANTIS model",
      text=("Generated cases over all rounds, both modes and all four ways of supplying the tweak must equal an independent "
@@ -113,7 +123,7 @@ prop("C04",
            "encrypt/decrypt on Skinny128/64TweakedKey_t, and ctr_set_tweaked_key / ctr_set_tweak / set_counter / encrypt on "
            "every CTR back end; oracle = specification cipher with the zero-padded latest tweak in TK1 and the domain bit, and "
            "the public tweak field == model tweak after every call; non-trivial = an encryption preceded by >= 2 tweak "
-           "changes since keying, one of them short or NULL"),
+           "changes since keying, one of them short or NULL" + GEN_NOTE),
      assumptions=MODEL_ASSUME + BUILD_ASSUME,
      technique="stateful property-based testing (rapidcheck): tweak-change histories vs. specification model",
      text=("Generated histories of tweak changes (full, short, NULL) on tweaked schedules and CTR objects must always behave "
@@ -133,7 +143,7 @@ prop("C06",
            "the block size, swap_modes) on one CTR or parallel-ECB object, executed once per back end available for the kind "
            "(generic, vec128, vec256) with the back end pinned; oracle = every return value and every output byte equal across "
            "the twins (pure differential); non-trivial = a key/tweak change at a position that is not a batch multiple followed "
-           "by data, or an invalid call between two data calls, or data with the post-init default counter"),
+           "by data, or an invalid call between two data calls, or data with the post-init default counter" + GEN_NOTE),
      assumptions=BUILD_ASSUME + ["host CPU offers SSE2 and AVX2 so all three back ends execute (the evidence lists which were exercised)"],
      technique="differential property-based testing (rapidcheck): identical generated API histories on back-end-pinned twin objects",
      text=("Pure differential search: identical generated call histories, including mid-stream key/tweak changes and invalid "
@@ -228,7 +238,7 @@ prop("C14",
            "without injections, API model agrees (valid calls return 1), guard zones / ASan silent; non-trivial = an injected "
            "call is followed by an output-producing valid call; coverage.invalid_call_matrix accounts for the statement's matrix: every "
            "injected call is classified as function / class of invalid argument @ object state (zeroed, failed, fresh, keyed, "
-           "midstream, cleaned; from the library's own return values) and the 340 cells the statement names are reported as hit / never generated"),
+           "midstream, cleaned; from the library's own return values) and the 340 cells the statement names are reported as hit / never generated" + GEN_NOTE),
      assumptions=MODEL_ASSUME + BUILD_ASSUME + ["second unit: gcc -O1 ASan+UBSan build (alignment check off: SKINNY_UNALIGNED is the documented assumption on x86) with every buffer in its own heap block"],
      technique="stateful property-based testing (rapidcheck) with fault-injected calls: twin differential + API model + ASan",
      text=("Generated valid histories with injected invalid calls; the injected call must return 0 and be unobservable afterwards "
@@ -258,7 +268,7 @@ prop("C15",
            "object, any call after cleanup, re-init and reuse; after every call the allocator monitor's live set must equal the "
            "set of initialised, not yet cleaned objects (one block each), no double / foreign free, calls after cleanup return "
            "0 (API model), nothing live at the end; non-trivial = history has a re-init after cleanup, a use after cleanup and "
-           ">= 2 objects live at once"),
+           ">= 2 objects live at once; shapes: ordinary (1-6 objects, 4-60 calls), crowd (7-24 objects, mostly one kind, 30-200 calls), churn (one or two objects through 40-300 init/cleanup cycles)" + GEN_NOTE),
      assumptions=MODEL_ASSUME + BUILD_ASSUME + MON_ASSUME + ["init of an already live object is caller misuse and is not generated"],
      technique="stateful (model-based) property testing with rapidcheck + allocator monitor invariant after every step + ASan",
      text=("Generated multi-object life-cycle histories with an invariant checked after every step (allocator live set == "
@@ -275,7 +285,7 @@ prop("C16",
            "caller's object in {zeros, 0xFF, garbage fill, stale image of a previously used and cleaned object, handle fields "
            "pointing at harness-owned canary memory}; after the failed init every other API function is applied (must return 0, "
            "produce no output, free / write nothing foreign, canary intact), then a successful init must work normally; "
-           "non-trivial = a failure was actually injected; distinct = distinct (site, prior content, key/data) cases"),
+           "non-trivial = a failure was actually injected; distinct = distinct (site, prior content, key/data) cases; the probes of the inert object come in every size class (0 bytes, 1 byte, one block, several blocks, ragged)" + GEN_NOTE),
      assumptions=MODEL_ASSUME + BUILD_ASSUME + MON_ASSUME,
      extra_cov={"exhaustive_dimension": "init function x back end x allocation request (see classes site/*); prior contents and key/data sampled"},
      technique="fault injection enumerated over allocation sites (allocator monitor) with generated prior object contents (rapidcheck)",
@@ -291,7 +301,7 @@ prop("C17",
      rule=("histories that key an object, process data (leaving a partially consumed keystream batch) and end in cleanup, for "
            "every CTR / parallel-ECB kind and back end; at every free() made by the library the monitor inspects the whole "
            "block as requested from the allocator (for skinny_calloc blocks including alignment slack and base pointer): every "
-           "byte must be zero; non-trivial = the block held >= 64 non-zero bytes just before the cleanup call"),
+           "byte must be zero; non-trivial = the block held >= 64 non-zero bytes just before the cleanup call; 8 % of the histories keep a crowd of 2-20 further live objects (any kind) around the object under test and clean them up in a generated order afterwards - every block of every object is inspected" + GEN_NOTE),
      assumptions=BUILD_ASSUME + MON_ASSUME + ["library built with the shipped flags (-O3), so a wipe the optimiser removes as a dead store would be seen"],
      technique="property-based testing (rapidcheck) with an allocator monitor inspecting every block at the moment of free()",
      text=("Generated keyed-and-used histories ending in cleanup; the monitor checks all bytes of each block at the instant the "
@@ -310,7 +320,7 @@ prop("C03",
            "set_key / set_tweak(bytes|NULL) / swap_modes / crypt / crypt_tweaked / parallel crypt, checked against the model "
            "for the current mode, against swap-crypt-swap being the inverse, and (schedule image) against a schedule keyed "
            "afresh in the current mode with the tweak re-applied; non-trivial = (a) any random key/block, (b) block count above "
-           "and not a multiple of the vector batch, (c) a swap after a tweak change followed by a crypt"),
+           "and not a multiple of the vector batch, (c) a swap after a tweak change followed by a crypt" + GEN_NOTE),
      assumptions=MODEL_ASSUME + BUILD_ASSUME + ["image comparison covers k0, k0', k1, tweak and rounds of MantisKey_t (trailing padding excluded)"],
      technique="property-based testing (rapidcheck): round-trip laws (library vs library) + stateful Mantis mode machine vs model and struct image",
      text=("Round-trip laws need no model: the inverse entry point must restore the input for generated keys, tweaks, blocks, "
@@ -331,7 +341,7 @@ prop("C07",
            "count 0..40 was generated (the count dimension is covered completely when every 'blocks=n' class is non-zero); "
            "non-trivial = a count above and not a multiple of the back end's batch; 1 in 9 requests has 41..200 blocks and the object is "
            "sometimes re-keyed with a related key; a second harness (unit c07-big) issues single requests of >= 65281 blocks (thorough "
-           "tier: also more than 4 GiB) and checks sampled blocks against the single-block functions"),
+           "tier: also more than 4 GiB) and checks sampled blocks against the single-block functions; a quarter of the programs weave one to three bystander parallel objects of the same kind (own init / keying / data / cleanup / re-init in any order, ops marked by=1) around the object under test" + GEN_NOTE),
      assumptions=BUILD_ASSUME + ["single-block functions are tied to the specification by C01/C02"],
      technique="differential property-based testing (rapidcheck): parallel entry points vs the library's own single-block functions",
      text=("Generated parallel calls for every block count 0..40 on every back end must equal the single-block functions block "
@@ -359,7 +369,7 @@ prop("C10",
            "model), accepted == same bytes zero-padded to the next primary size (library vs library: image, keystream, "
            "blocks) and == specification model, rejected => 0, schedule image and later behaviour unchanged; non-trivial = "
            "length strictly between primary sizes or rejected; 'length_dimension_complete' reports whether every small length "
-           "was generated in this run"),
+           "was generated in this run" + GEN_NOTE),
      assumptions=MODEL_ASSUME + BUILD_ASSUME + ["second unit: ASan build with exact-size heap key buffers, so reading a rejected huge length faults"],
      technique="property-based testing (rapidcheck) with the length dimension swept: API model + zero-padding metamorphic relation + ASan",
      text=("Every small key length and a set of huge ones, through every key-setting entry point, is checked for accept/reject, "
@@ -469,7 +479,7 @@ prop("C09",
            "and ASan with exact heap blocks): guard zones intact, inputs unmodified, same outputs at a second alignment, and "
            "overlapping / in-place == disjoint. Non-trivial = a pointer at an odd offset, a non-zero overlap / in-place, or a size "
            "leaving a partial vector batch. Unit c09-far: CTR and parallel calls whose output buffer lies exactly 1 or 2 times 2^32 bytes "
-           "after the input buffer (only the touched pages are mapped), sampled blocks against the single-block functions"),
+           "after the input buffer (only the touched pages are mapped), sampled blocks against the single-block functions" + GEN_NOTE),
      assumptions=BUILD_ASSUME + ["memcheck addressability is byte-exact on both sides of every window (positive controls run at start-up)",
                                  "UBSan's alignment check is off: unaligned word access is the documented SKINNY_UNALIGNED assumption on x86"],
      technique="rapidcheck-generated placements under a memcheck NOACCESS arena + metamorphic alignment/overlap relations + ASan",
@@ -516,7 +526,7 @@ prop("C11",
            "M_PERTURB 00 / A5 / 3C and caller-owned structs pre-filled differently; and identical per-case transcript digests "
            "between two separate processes (different ASLR) and between gcc -O3, gcc -O0, clang -O2 (thorough: more) builds fed "
            "the same case stream. Non-trivial = program has an in-between key length, a short/NULL tweak or counter, an init, or "
-           "a caller-owned schedule"),
+           "a caller-owned schedule" + GEN_NOTE),
      assumptions=MODEL_ASSUME[:0] + BUILD_ASSUME + ["memcheck sees undefinedness only where it lives in memory: hence the -O0 / -O1 builds next to the shipped one",
                   "stack painting alone is weak (the slot of an uninitialised local is usually rewritten by the previous callee); the cross-process "
                   "and cross-optimisation digest comparisons are the strong part of (b)"],
@@ -545,8 +555,10 @@ def c12_matrix(tier):
                         name = "%s%s-w%d-u%d-%s" % (cc, opt, 64 if w else 32, ua, sname)
                         defs = ["SKINNY_VERIF_64BIT=%d" % w, "SKINNY_VERIF_UNALIGNED=%d" % ua] + sdefs
                         full.append((name, LibCfg(name=name, cc=cc, opt=opt, defs=defs)))
+    # ... and the library exactly as the repository's own Makefile builds it (whatever flags src/Makefile and options.mak carry)
+    asmake = [("as-built-by-make", LibCfg(name="as-built-by-make", make=True))]
     if tier == "thorough":
-        return full
+        return full + asmake
     # quick: a subset that covers every value of every switch and every pair of (word, unaligned, simd/endian),
     # with compilers and -O levels spread over it
     pick = ["gcc-O3-w64-u1-simd256", "gcc-O3-w32-u0-simd256", "clang-O2-w32-u1-simd128", "gcc-O1-w64-u0-simd128",
@@ -555,7 +567,7 @@ def c12_matrix(tier):
             "clang-O3-w64-u1-simd256", "gcc-O2-w64-u0-simd256", "clang-O0-w32-u1-simd256", "gcc-O0-w32-u0-simd128",
             "gcc-O3-w64-u1-simd256only", "clang-O2-w32-u0-simd256only"]
     d = dict(full)
-    return [(n, d[n]) for n in pick]
+    return [(n, d[n]) for n in pick] + asmake
 
 def c12_units(tier):
     from concurrent.futures import ThreadPoolExecutor
@@ -571,12 +583,13 @@ prop("C12",
      level="exploration",
      rule=("build configurations = word arithmetic {64, 32 bit} x unaligned fast paths {on, off} x {both SIMD back ends, 128-bit "
            "only, 256-bit only, SIMD stubbed out, SIMD off + byte-order-neutral scalar code} x {gcc, clang} x {-O0..-O3}: all 160 in the thorough "
-           "tier, an 18-configuration subset covering every pair of switch values in the quick tier; each is compiled from the "
+           "tier, an 18-configuration subset covering every pair of switch values in the quick tier, plus - in both tiers - the library as "
+           "the repository's own Makefile builds it (src/, include/, options.mak copied to a scratch directory, make run there); each is compiled from the "
            "current tree (hook H1 overrides) into a shared object and loaded privately; generated programs = union of the "
            "C01-C07 generators plus in-between key lengths, default counters, mid-stream changes, invalid and life-cycle calls; "
            "oracle = transcript (returns, outputs, active schedule images, public fields) of every configuration x available back "
            "end equals the baseline (gcc -O3, 64-bit, unaligned, both SIMD) for the same back end, and the baseline equals the API "
-           "/ specification model; non-trivial = program processes data; distinct = distinct programs"),
+           "/ specification model; non-trivial = program processes data; distinct = distinct programs" + GEN_NOTE),
      assumptions=MODEL_ASSUME + ["position-independent code in shared objects stands for the static build of the same configuration",
                   "no big-endian or NEON hardware, no 32-bit ABI: the 32-bit-word and byte-order-neutral paths are compiled for, and executed "
                   "on, the little-endian 64-bit host, which is what the property's quantifier says"],
@@ -602,7 +615,64 @@ def c13_units(tier):
         u.append(Unit("c13-model" + name, srcs, mon(cfg), cases=n, shards=(6 if main else 2) if q else 16, args=a + ["--cases", "model"]))
     return u
 
+# C13, second oracle: which instructions the selected back end actually executes (lib/isa_audit.py)
+def c13_isa_audit(pid, tier, seed, work, units):
+    import isa_audit, subprocess
+    from concurrent.futures import ThreadPoolExecutor
+    exe = isa_audit.build(work)
+    insn, syms, libfuncs = isa_audit.disassemble(exe)
+    # programs from the C06 generator (one object of any kind; valid, invalid and life-cycle calls); the back-end cap of the
+    # init calls is rewritten to 128 / 0 / 256 - two thirds run on a capped back end, which this AVX2 host never selects by itself
+    g = Unit("c13-isa-gen", "c06.cpp", SHIPPED, cases=1, shards=1)
+    g.build(work)
+    cdir = skv._mk(os.path.join(work, "isa-corpus"))
+    want = 16 if tier == "quick" else 96
+    env = dict(os.environ, **g.env); env["RC_PARAMS"] = "seed=%d max_success=%d max_size=60" % (seed * 1000 + 777, want + 8)
+    subprocess.run(g.cmd("gen", "--corpus", cdir, "--corpus-n", str(want + 8), "--dumponly", "1"), env=env, stdout=subprocess.PIPE, stderr=subprocess.STDOUT, timeout=1200)
+    import re as _re
+    pick = []; high = set()
+    for i, f in enumerate(sorted(os.listdir(cdir))):
+        text = open(os.path.join(cdir, f)).read()
+        if ".init " not in text or " rep=" in text:
+            continue
+        cap = (128, 0, 128, 256, 128, 256)[i % 6]
+        text = _re.sub(r"\bbe=\d+", "be=%d" % cap, text)
+        open(os.path.join(cdir, f), "w").write(text)
+        if isa_audit.level_of(text) == 256:
+            high.add(f)
+        pick.append(f)
+    pick = pick[:want]
+    if len(pick) < 4:
+        raise skv.InfraError("instruction audit: the generator produced only %d usable programs" % len(pick))
+    def one(f):
+        return f, isa_audit.audit(exe, os.path.join(cdir, f), work, insn, syms, libfuncs, f)
+    viol = []; total = 0; nlib = 0; per = {"capped at generic / 128-bit": 0, "256-bit": 0}
+    with ThreadPoolExecutor(12) as ex:
+        for f, (bad, t, n) in ex.map(one, pick):
+            total += t; nlib += n
+            per["256-bit" if f in high else "capped at generic / 128-bit"] += 1
+            if bad and len(viol) < 3:
+                rp = runner.save_replay(pid, open(os.path.join(cdir, f)).read())
+                viol.append((rp, "instruction-set-audit", bad))
+    return viol, {"instruction_set_audit": dict(
+        programs=len(pick), programs_by_back_end=per, instructions_executed_inside_library_calls=total,
+        distinct_library_instructions_classified=nlib, library_build="as the repository's Makefile builds it (make -C src in a scratch copy, CFLAGS=-DSKINNY_C_VERIF)",
+        rule="every instruction executed inside a library function while an object capped at the generic or 128-bit back end is in use must be "
+             "x86-64 baseline (SSE2 included); on the 256-bit back end AVX / AVX2 (and legacy SSE3..SSE4.2 encodings) are allowed too; anything "
+             "else - SSSE3 in the 128-bit code, AVX in generic code, BMI / FMA / AVX-512 anywhere - is an instruction the selection logic never probed for")}
+
+def c13_isa_replay(path, work):
+    import isa_audit
+    text = open(path).read()
+    if text.lstrip().startswith("cpu") or isa_audit.level_of(text) is None or "probe." in text:
+        return None
+    exe = isa_audit.build(work)
+    insn, syms, libfuncs = isa_audit.disassemble(exe)
+    bad, t, n = isa_audit.audit(exe, path, work, insn, syms, libfuncs, "replay")
+    return bad
+
 prop("C13",
+     extra=c13_isa_audit, extra_replay=c13_isa_replay,
      units=c13_units,
      level="exploration",
      rule=("cases = 2-8 calls of the six init functions and the two internal probes, each through an assembly trampoline that loads "
@@ -616,9 +686,14 @@ prop("C13",
            "- for the shipped, VEC256-less and SIMD-less builds; each "
            "modelled case runs in a forked child of a process that never calls the library (a probe result cached by the library "
            "would be legitimate here - a real CPU does not change - and must not make cases influence each other); "
-           "non-trivial = real-CPU case with non-zero ECX garbage, or a model that is not 'everything present'"),
+           "non-trivial = real-CPU case with non-zero ECX garbage, or a model that is not 'everything present'; models also carry the vendor "
+           "string (Intel, AMD, Hygon, Centaur, Zhaoxin, arbitrary bytes) and family/model/stepping of real parts or arbitrary values, which must not "
+           "matter. Second oracle (coverage.instruction_set_audit) for 'never a back end whose instructions the CPU cannot execute': generated "
+           "API programs with the back end capped at generic / 128-bit / 256-bit run under valgrind/lackey against the library as the repository's "
+           "Makefile builds it; every instruction executed inside a library function is classified by ISA extension: baseline x86-64 (SSE2) only "
+           "below the 256-bit back end, AVX/AVX2 in addition on it, nothing that was never probed (SSSE3, BMI, FMA, AVX-512, ...)"),
      assumptions=BUILD_ASSUME[:0] + ["SSE OS support is architectural on x86-64 and is not modelled", "modelled CPUs decide selection logic only; instruction execution happens on the host"],
-     technique="property-based testing (rapidcheck): generated register/stack garbage on the real CPU + generated CPU models through a CPUID hook",
+     technique="property-based testing (rapidcheck): generated register/stack garbage on the real CPU + generated CPU models through a CPUID hook + executed-instruction audit of generated programs per back end",
      text=("Generated calling contexts on the real CPU show whether the choice depends on register or stack garbage; generated CPU "
            "models (the host has every feature, so only a model separates the feature bits) show whether the choice is the widest "
            "supported one and never an unsupported one. Sampling of contexts and models."),
@@ -640,7 +715,7 @@ prop("C18",
            "(block encryption / decryption) by any thread; the back-end cap is set once per scenario before threads exist (0 / 128 / "
            "256); library and harness built with clang -fsanitize=thread; oracles: no ThreadSanitizer report (callback counted per "
            "scenario; a deliberate race in harness code is the positive control at start-up) and every thread's transcript equals the "
-           "same program run alone sequentially; non-trivial = >= 2 threads (always), classes list shared-object use"),
+           "same program run alone sequentially; non-trivial = >= 2 threads (always), classes list shared-object use; a shared object's single-threaded life before sharing includes 0-3 mode swaps (Mantis), a stored tweak, sometimes a first use" + GEN_NOTE),
      assumptions=["ThreadSanitizer's happens-before detection reports two conflicting unsynchronised accesses whenever both occur in the "
                   "run, whatever order they took; the library has no synchronisation at all, so any shared mutable location touched by two "
                   "threads is reported - what it cannot see is a conflict on a path no generated scenario executes",
@@ -671,7 +746,7 @@ prop("C19",
            "only setKey is generated - the documented way to reuse), CTR setIV / encrypt / decrypt with arbitrary cuts; oracle = the C "
            "library object of the corresponding variant driven by the corresponding calls: equal outputs and equal accept/reject "
            "results; non-trivial = a block operation after >= 2 tweak changes, or after a swap following a tweak change, or a CTR "
-           "call whose length is not a multiple of 16; about 1 in 500 CTR calls processes a little more than 1 MiB (65536 blocks) at once"),
+           "call whose length is not a multiple of 16; about 1 in 500 CTR calls processes a little more than 1 MiB (65536 blocks) at once; a quarter of the block calls place input and output in one buffer at a generated distance |d| < block size (0 = in place) and alignment, as BlockCipher documents"),
      assumptions=BUILD_ASSUME + ["the portable (#else of USE_AVR_INLINE_ASM) C++ path is compiled unchanged with the host g++; the AVR inline-assembly path is out of reach on the host (stated in the property)",
                   "setCounterSize(n < 16), wrong key lengths and setTweak before setKey are not generated: the C API has no counterpart / the Arduino documentation excludes them"],
      technique="differential stateful property-based testing (rapidcheck): Arduino classes vs the C library on identical call histories",
@@ -723,7 +798,7 @@ prop("C20",
            "bad -b, non-hex digits, empty key, unknown option, unreadable input) must exit non-zero and leave no output file; "
            "non-trivial = invalid invocation, or length > 1024 and not a multiple of the block, or short counter/tweak, or in-between key; "
            "the option groups (-b, -k, -c/-t, -d) appear in a generated order; in the thorough tier about 4 % of the cases feed a sparse "
-           "all-zero input of 2^32 + k bytes and check the output length and sampled blocks"),
+           "all-zero input of 2^32 + k bytes and check the output length and sampled blocks; 10 % of the valid invocations deliver the input through a FIFO whose writer pauses after a generated number of bytes (a tool may refuse such an input with a non-zero status and no output, but may not exit 0 with different bytes)"),
      assumptions=BUILD_ASSUME + ["the in-process library computation is tied to the specification by C01, C04, C05, C10",
                   "odd-length hex strings and separator characters are not generated (undocumented either way)"],
      technique="process-level property-based testing (rapidcheck): generated files/keys/options through the built tools vs in-process library + round trip",
